@@ -18,7 +18,14 @@ class MessageHead(packet.Packet):
         formats.remove_padding(self)
 
         if not self.payload:
-            raise formats.VerifyError('Message without payload')
+            # Payloads without any field are never constructed by scapy
+            # when the message type is the final octet of the data
+            cls = self.guess_payload_class(b'')
+            if (isinstance(cls, type) and issubclass(cls, formats.NoPayloadPacket)
+                    and not cls.fields_desc):
+                self.add_payload(cls())
+            else:
+                raise formats.VerifyError('Message without payload')
         if isinstance(self.payload, packet.Raw):
             raise formats.VerifyError('Message with improper payload')
 
